@@ -110,6 +110,14 @@ func (c *Conn) query(ctx context.Context, query string, args []interface{}, pre 
 		return nil, err
 	}
 	rows := &Rows{cols: out.cols, rows: out.rows, binary: binary, failAt: out.failAt, failErr: out.failErr}
+	if len(out.sets) > 1 {
+		// several statements with a result each: the first comes first, the others through NextResultSet
+		first := out.sets[0]
+		rows = &Rows{cols: first.cols, rows: first.rows, binary: binary, failAt: first.failAt, failErr: first.failErr}
+		for _, o := range out.sets[1:] {
+			rows.more = append(rows.more, &Rows{cols: o.cols, rows: o.rows, binary: binary, failAt: o.failAt, failErr: o.failErr})
+		}
+	}
 	// like go-sql-driver/mysql, the connection is busy with this result until it has been read to its end or
 	// closed: another command sent meanwhile fails ("busy buffer", driver.ErrBadConn)
 	c.s.e.mu.Lock()
@@ -387,6 +395,20 @@ type Rows struct {
 	failErr error
 	buf     []byte
 	drained bool // read to its end, or closed
+	more    []*Rows
+}
+
+func (r *Rows) HasNextResultSet() bool { return len(r.more) > 0 }
+
+func (r *Rows) NextResultSet() error {
+	if len(r.more) == 0 {
+		return io.EOF
+	}
+	next, rest := r.more[0], r.more[1:]
+	r.cols, r.rows, r.pos, r.failAt, r.failErr, r.buf = next.cols, next.rows, 0, next.failAt, next.failErr, nil
+	r.more = rest
+	r.drained = false
+	return nil
 }
 
 var (
@@ -404,14 +426,14 @@ func (r *Rows) Columns() []string {
 	return out
 }
 
-func (r *Rows) Close() error { r.pos = len(r.rows); r.drained = true; return nil }
+func (r *Rows) Close() error { r.pos = len(r.rows); r.more = nil; r.drained = true; return nil }
 
 func (r *Rows) Next(dest []driver.Value) error {
 	if r.failAt > 0 && r.pos+1 >= r.failAt {
 		return r.failErr
 	}
 	if r.pos >= len(r.rows) {
-		r.drained = true
+		r.drained = len(r.more) == 0
 		return io.EOF
 	}
 	row := r.rows[r.pos]
